@@ -257,7 +257,7 @@ func c21MkBody(desc string) []byte {
 //
 //	zlib:<level>:<wbits>:<flush offsets '+'>          level -2..9; wbits 8..15 (15 = compress/zlib itself)
 //	brotli:<quality>:<lgwin>:<flush offsets>          quality 0..11, lgwin 10..24 (0 = automatic)
-//	zstd:<level>:<wlog>:<flush offsets>:<frame starts>:<flags>   level 1..4, window 2^wlog (10..23);
+//	zstd:<level>:<wlog>:<flush offsets>:<frame starts>:<flags>   level 1..4, window 2^wlog (10..25);
 //	       flags: c = content checksum, k = skippable frame between frames, e = an empty frame first
 //	raw                                                 the body itself (not compressed)
 func c21Encode(desc string, body []byte) []byte {
@@ -748,7 +748,10 @@ func c21GenEnc(r *Rng, codec string, size int) string {
 		level := 1 + r.Intn(3)
 		wlog := Pick(r, []int{10, 12, 15, 17, 20, 20})
 		if r.Intn(30) == 0 {
-			wlog = 23
+			// 8 MiB is what every decoder is expected to take (RFC 8878); 16/32 MiB are still valid encodings
+			// (klauspost's own best-compression stream encoder declares such windows): a window cap in
+			// decompressCert must not refuse them (D34)
+			wlog = Pick(r, []int{23, 23, 24, 25})
 		}
 		if r.Intn(50) == 0 {
 			level, wlog = 4, Pick(r, []int{10, 15}) // SpeedBestCompression: ~1 s of table set-up per encoder
